@@ -14,6 +14,8 @@ class _composite_base(prophy_data_object):
 
     @classmethod
     def validate_copy_from(cls, rhs):
+        if getattr(cls, "_OPTIONAL", False):
+            cls = cls.__bases__[0]
         if not isinstance(rhs, cls):
             raise TypeError("Parameter to copy_from must be instance of same class.")
 
